@@ -46,6 +46,8 @@ def size_ty(s):
 
 def same(a, b):
     """structural equality of two abstract values (no TOP allowed unless affine forms agree)"""
+    if a is b:
+        return True   # one abstract object denotes one concrete value on a path
     if isinstance(a, BV) and isinstance(b, BV):
         return a.w == b.w and a.same(b)
     if isinstance(a, Struct) and isinstance(b, Struct):
@@ -112,13 +114,17 @@ def eval_bits(bits, env):
     return out
 
 
-def eval_bv(v, env):
-    """concrete value of a BV under a full assignment; falls back to the affine form when bits were lost to carries"""
+def eval_bv(v, env, I=None, st=None):
+    """concrete value of a BV under a full assignment of the input symbols; symbols introduced for arithmetic results
+    are evaluated through their affine definitions"""
     r = eval_bits(v.bits, env)
-    if r is not None or v.aff is None:
+    if r is not None:
         return r
-    tot = v.aff.const
-    for (s, lo, hi), c in v.aff.terms.items():
+    aff = I.aff_of(st, v) if I is not None and st is not None else v.aff
+    if aff is None:
+        return None
+    tot = aff.const
+    for (s, lo, hi), c in aff.terms.items():
         x = 0
         for i in range(lo, hi):
             b = env.get((s, i))
